@@ -81,6 +81,37 @@ CHECKS = {
             'w == 2*tx and height == ty ties occur exactly; a separate range monitor checks every index is inside the curve.',
             'rdp.mapping (C07) and the reduction handed in are taken as given',
             'DESIGN.md section 4 C14'),
+    'C10': ('runtime postcondition monitors on zmethod.knees / getPoints (exact pairwise separation with the code\'s own threshold expressions) + loop-bound and progress-variant monitor on the selection loop',
+            'Every result is checked for valid strictly increasing indices, non-increasing heights and pairwise x/y separation of ALL knee '
+            'pairs; the selection loop is bounded by the documented ceil((3-min z)/dz)+n rounds (x2 slack) and a progress hook asserts a '
+            'round that selects an outlier shrinks the candidate table.',
+            'miss-ratio-like domain (integer x, y in [0,1], dx/dy/dz in (0,1]); uts.gradient/uts.zscore taken as given',
+            'DESIGN.md section 4 C10'),
+    'C11': ('runtime per-decision monitors on the four linkages against the implementation\'s own run boundaries (IEEE replay for single/complete, exact rationals for centroid/average) + monotonicity ladder',
+            'Label well-formedness, every split/merge decision (exact at generated ties where floating point is exact, banded elsewhere) and '
+            'monotonicity of single/complete cluster counts over a 12-step threshold ladder per layout; exact-tie cases are counted and '
+            'required per linkage.',
+            'in-band centroid/average decisions are asserted only where the implementation\'s arithmetic is provably exact',
+            'DESIGN.md section 4 C11'),
+    'C13': ('runtime postcondition monitors on filter_worst_knees / filter_corner_knees / select_corner_knees (also on internal calls) with an independent rational IoU',
+            'Greedy running-minimum rule and idempotence; corner filter/selector against an IoU recomputed in exact rationals from the three '
+            'points, exact tie decisions on dyadic curves, partition law, order preservation, idempotence.',
+            'outside the dyadic class a decision within 1e-12 relative of t is accepted either way',
+            'DESIGN.md section 4 C13'),
+    'C19': ('runtime postcondition monitors on cm / mae / mse / rmse / rmspe / accuracy / f1score / mcc against executable greedy-matching and nearest-neighbour models, incl. a large-count class',
+            'Confusion-matrix identities and greedy TP, error metrics against the nearest-neighbour model for the four strategies, sqrt/zero/'
+            'non-negativity laws, score ranges and perfect-detection laws on small curves AND on confusion matrices of 1.4e5..1e6 points '
+            '(where int64 products overflow); thorough also runs cm on the bundled web2 trace.',
+            'near-tie nearest-neighbour and threshold decisions (IEEE vs rational disagreement) get no numeric verdict',
+            'DESIGN.md section 4 C19'),
+    'C20': ('cross-cutting purity / determinism / representation monitors over ~190 entry-point configurations + load-time link monitor on live function objects + sys.monitoring RAISE monitor + reach coverage',
+            'Argument digests before/after every call (mutable defaults included), repeated-call bitwise equality, C vs Fortran vs strided-view '
+            'vs int64 representations (index outputs identical, floats within 8 ulp + cancellation floor), and resolution of every global name, '
+            'module/class attribute chain, intra-package and uts call signature, tuple-unpacking arity and local import against the live '
+            'objects; link-type exceptions raised in package frames are recorded by a RAISE monitor; line coverage of the call-everything '
+            'workload is reported.',
+            'one open known finding (evaluation.compute_global_segment_cost); attribute access on values and calls through local aliases only on reached paths',
+            'DESIGN.md section 4 C20'),
 }
 
 BUILDING = {}   # id -> reason (properties not claimed yet)
